@@ -1033,6 +1033,9 @@ impl Module for M {
                 let c = Circle::new(tl, d);
                 let bb = s.bounding_box();
                 let pts: Vec<Point> = s.points().collect();
+                if pts.len() <= 300 {
+                    iter_protocol_check(ctx, "iterator-protocol:sector-points", s.points(), 300);
+                }
                 let m = 2i32;
                 let (x0, y0) = (tl.x - m, tl.y - m);
                 let (x1, y1) = (tl.x + d as i32 + m, tl.y + d as i32 + m);
@@ -1097,6 +1100,9 @@ impl Module for M {
                 let inner = c.offset(-1);
                 let bb = arc.bounding_box();
                 let pts: Vec<Point> = arc.points().collect();
+                if pts.len() <= 300 {
+                    iter_protocol_check(ctx, "iterator-protocol:arc-points", arc.points(), 300);
+                }
                 // the circle's one-pixel inside ring: circle points that are not in circle.offset(-1)
                 let ring: Vec<Point> = c.points().filter(|p| !inner.contains(*p)).collect();
                 ctx.expect(bb == c.bounding_box(), "C18:arc-bbox-ne-circle-bbox", || fmt_rect(&bb));
